@@ -4,6 +4,7 @@ import (
 	"bufio"
 	"bytes"
 	"encoding/json"
+	"errors"
 	"flag"
 	"fmt"
 	"os"
@@ -341,6 +342,11 @@ func runParent(p *Property, tier string, seed int64) int {
 			// the worker died: the last marked case is the witness.
 			cur, _ := os.ReadFile(o.curPath)
 			tail := tailFile(o.logPath, 60)
+			if why := environmentFailure(o.exitErr, tail); why != "" {
+				// killed from outside (OOM killer, operator) or out of a machine resource: nothing was observed about the property
+				inconclusive = append(inconclusive, fmt.Sprintf("shard %d: %s (%v; see %s)", o.shard, why, o.exitErr, o.logPath))
+				continue
+			}
 			sig := "crash:" + crashClass(tail)
 			var raw json.RawMessage
 			if json.Valid(cur) {
@@ -557,6 +563,10 @@ func runReplayParent(p *Property, file string) int {
 	}
 	b, rerr := os.ReadFile(outF)
 	if rerr != nil {
+		if why := environmentFailure(err, tailFile(logF, 60)); why != "" {
+			fmt.Printf("INCONCLUSIVE property=%s reason=replay: %s\n", p.ID, why)
+			return 3
+		}
 		fmt.Printf("VIOLATION property=%s replay=%s sig=crash :: worker died on replay (%v)\n%s\n", p.ID, abs, err, tailFile(logF, 40))
 		return 1
 	}
@@ -609,6 +619,30 @@ func tailFile(path string, lines int) string {
 }
 
 var crashRe = regexp.MustCompile(`(?m)^(panic: |fatal error: )(.*)$`)
+
+// environmentFailure tells a worker that died of the machine (killed by a signal the harness did not send, out of memory,
+// threads, file descriptors or ports) from one that died of the code under test. The former says nothing about the property.
+func environmentFailure(exitErr error, tail string) string {
+	var ee *exec.ExitError
+	if errors.As(exitErr, &ee) {
+		if ws, ok := ee.Sys().(syscall.WaitStatus); ok && ws.Signaled() {
+			switch ws.Signal() {
+			case syscall.SIGKILL, syscall.SIGTERM, syscall.SIGHUP, syscall.SIGINT:
+				return "worker killed by signal " + ws.Signal().String()
+			}
+		}
+	}
+	for _, m := range []string{
+		"fatal error: runtime: out of memory", "cannot allocate memory", "failed to create new OS thread", "runtime: program exceeds",
+		"too many open files", "httptest: failed to listen", "bind: address already in use", "cannot assign requested address",
+		"no space left on device", "ThreadSanitizer: failed to", "ThreadSanitizer failed to allocate",
+	} {
+		if strings.Contains(tail, m) {
+			return "worker died of a machine resource (" + m + ")"
+		}
+	}
+	return ""
+}
 
 func crashClass(tail string) string {
 	if m := crashRe.FindStringSubmatch(tail); m != nil {
